@@ -140,6 +140,7 @@ def _string_case(ch):
                 "register q[2]\nmacro m a { m a }\nm q[0]\n",
                 "let n 2.5\nregister q[n]\ng q[0]\n",
                 "register q[1]\ng " + "7" * 4400 + "\n",
+
                 "let x " + "0" * 4400 + "1\nregister q[1]\n",
                 "register q[1]\ng q '" + "1" * 15000 + "'\n",
                 "let n 2.5\nregister q[n]\nmap s q[1]\nmap w q\ng w[0] s\n",
